@@ -32,7 +32,7 @@ def floors(tier):
     return {"evaluations": 500 if q else 10000, "distinct_nontrivial": 120 if q else 2500, "pairs_checked": 800 if q else 16000,
             "expected_edges": 200 if q else 4000, "expected_no_edge": 400 if q else 8000, "isa:x86": 1, "isa:aarch64": 1,
             "with_bump": 150 if q else 3000, "with_index": 60 if q else 1200, "with_copy": 30 if q else 600, "killed_by_store": 10 if q else 200,
-            "kind:synth": 250 if q else 5000, "kind:curated": 200 if q else 4000, "a64_writeback_between": 15 if q else 300}
+            "kind:synth": 250 if q else 5000, "kind:curated": 200 if q else 4000, "a64_writeback_between": 15 if q else 300, "bump_copy_bump": 25 if q else 500, "multi_destination_store": 40 if q else 800}
 
 
 def plan(tier, seed):
@@ -108,7 +108,26 @@ def stl_kernel(rng, isa, vocab, curated=False):
         delta[base] = (base, sm["disp"])
     if sm["post"]:
         delta[base] = (base, sm["post_val"])
-    for _ in range(rng.choice([0, 0, 1, 1, 2, 3])):
+    scenario = rng.random()
+    if scenario < 0.12 and bumps and copies:
+        # bump, copy, bump again (original or copy): the copy must keep its own change record
+        seq = []
+        f = rng.choice(bumps)
+        ins = bump_instance(rng, isa, f, base, rng.choice([8, 16, 24]), curated)
+        seq.append(ins)
+        if ins["bump"] and delta.get(base):
+            delta[base] = (delta[base][0], delta[base][1] + ins["bump"][3])
+        seq.append(copy_instance(rng, isa, rng.choice(copies), third, base, curated))
+        delta[third] = delta[base]
+        target = rng.choice([base, third])
+        f = rng.choice(bumps)
+        ins = bump_instance(rng, isa, f, target, rng.choice([8, 16]), curated)
+        seq.append(ins)
+        if ins["bump"] and delta.get(target):
+            delta[target] = (delta[target][0], delta[target][1] + ins["bump"][3])
+        kernel.extend(seq)
+        tags.update(["with_bump", "with_copy", "bump_copy_bump"])
+    for _ in range(rng.choice([0, 0, 1, 1, 2, 3]) if scenario >= 0.12 else 0):
         k = rng.random()
         if k < 0.4 and bumps:
             f = rng.choice(bumps)
@@ -162,6 +181,8 @@ def stl_kernel(rng, isa, vocab, curated=False):
     for _ in range(rng.randint(1, 3)):
         lf = rng.choice(loads)
         how = rng.choice(["exact", "exact", "exact", "off8", "off1", "otherbase", "viacopy", "otheridx", "otherscale"])
+        if "bump_copy_bump" in tags:
+            how = rng.choice(["exact", "viacopy", "viacopy", "off8"])
         lb = base
         if how == "viacopy" and delta.get(third) and delta[third][0] == base:
             lb = third
@@ -378,6 +399,8 @@ def one_case(kind, isa, vocab, path, ipath, arch, mseed, kseed, R, sample=True):
         return
     for t in tags:
         R.count(t)
+    if any(("sd" in [m["role"] for m in i["mems"]]) or (i["flag_writes"] and any("d" in m["role"] for m in i["mems"])) for i in kernel_ast):
+        R.count("multi_destination_store")
     if any("d" in m["role"] and D.same_operand(m, [x for x in kernel_ast[a]["mems"] if "d" in x["role"]][0])
            for a in range(len(kernel_ast)) if any("d" in x["role"] for x in kernel_ast[a]["mems"])
            for i in kernel_ast[a + 1:] for m in i["mems"]):
